@@ -132,7 +132,7 @@ func (m *messageQueryResponse) Ack() bool {
 
 func decodeMessage(buf []byte, out any) error {
 	handle := codec.MsgpackHandle{}
-	return codec.NewDecoder(bytes.NewReader(buf), &handle).Decode(out)
+	return codec.NewDecoderBytes(buf, &handle).Decode(out)
 }
 
 func encodeMessage(t messageType, msg any, msgpackUseNewTimeFormat bool) ([]byte, error) {
